@@ -67,11 +67,9 @@ func ExtractTypeNameMap(v interface{}) (map[string]reflect.Type, map[string]stri
 		typMap[name] = typ
 		nameMap[name] = name
 
-		if v.CanInterface() {
-			if n, ok := v.Interface().(CodecNamable); ok {
-				nameMap[name] = n.HessianCodecName()
-				typMap[n.HessianCodecName()] = typ
-			}
+		if n, ok := codecNamableOf(v); ok {
+			nameMap[name] = n.HessianCodecName()
+			typMap[n.HessianCodecName()] = typ
 		}
 		return true
 	})
@@ -97,6 +95,36 @@ func ExtractTypeNameMap(v interface{}) (map[string]reflect.Type, map[string]stri
 	}
 
 	return typMap, nameMap
+}
+
+// codecNamableOf returns v as a CodecNamable when its type declares a custom name itself: with a value
+// receiver or a pointer receiver, but not a name that is merely promoted from an embedded struct
+// (that name belongs to the embedded class; two classes cannot share a wire name)
+func codecNamableOf(v reflect.Value) (CodecNamable, bool) {
+	if !v.CanInterface() {
+		return nil, false
+	}
+	n, ok := v.Interface().(CodecNamable)
+	if !ok && v.Kind() != reflect.Ptr && v.Kind() != reflect.Interface {
+		// the name may be declared on the pointer type
+		pv := reflect.New(v.Type())
+		pv.Elem().Set(v)
+		n, ok = pv.Interface().(CodecNamable)
+	}
+	if !ok {
+		return nil, false
+	}
+	if v.Kind() == reflect.Struct {
+		for i := 0; i < v.NumField(); i++ {
+			if !v.Type().Field(i).Anonymous || !v.Field(i).CanInterface() {
+				continue
+			}
+			if en, ok := codecNamableOf(v.Field(i)); ok && en.HessianCodecName() == n.HessianCodecName() {
+				return nil, false
+			}
+		}
+	}
+	return n, true
 }
 
 // remove pointer '*' and right bracket ']'
